@@ -217,7 +217,7 @@ C13_Deterministic == pc = "done" => fsys.routesContent = Canonical
 Expect(p) == [ops |-> DocumentedOps(p), security |-> OpSecurity(p), enforceOk |-> EnforceOk(p), schemesDeclared |-> SchemesDeclared(p),
               ambiguous |-> Ambiguous(p), operations |-> ExpectedOperations(p),
               wellLinked |-> \A m \in Range(p.methods) : IsApi(m) => WellLinked(p, m),
-              served |-> Served(p), handlers |-> Handlers(p),
+              served |-> Served(p), handlers |-> Handlers(p), conflicting |-> ConflictingMethods(p),
               components |-> ExpectedComponents(p), plainError |-> PlainErrorPresent(p), nameClash |-> NameClash(p),
               routes |-> {[name |-> m.name, wellLinked |-> WellLinked(p, m), wellLinkedAsBuilt |-> WellLinkedD(p, m, TRUE), ptag |-> m.ptag]
                              : m \in {x \in Range(p.methods) : IsApi(x)}}]
